@@ -1,4 +1,5 @@
 import Norad.Props.C01
+import Norad.Props.C01Bridge
 #print axioms RT.int_or_float_within_1e9
 #print axioms RT.int_or_float_within_1e9_counterexample
 #print axioms RT.kerning_truncation_pinned_counterexample
@@ -17,3 +18,7 @@ import Norad.Props.C01
 #print axioms RT.guides_roundtrip
 #print axioms RT.save_load_eq
 #print axioms RT.font_roundtrip
+#print axioms RT.Bridge.noradLaws
+#print axioms RT.Bridge.font_roundtrip_norad
+#print axioms RT.Bridge.restValid_iff_rules
+#print axioms RT.Bridge.container_fields
